@@ -9,6 +9,11 @@ func init() {
 func runRender(c Case) interface{} {
 	doc := asList(c["doc"])
 	ast := pugDoc(doc)
+	if m, _ := c["modes"].(string); m == "both" {
+		p := renderOne(ast, c["data"], false, nil)
+		d := renderOne(ast, c["data"], true, nil)
+		return J{"prod": J{"class": p.Class, "out": p.Out, "msg": p.Msg}, "debug": J{"class": d.Class, "out": d.Out, "msg": d.Msg}}
+	}
 	debug, _ := c["debug"].(bool)
 	res := renderOne(ast, c["data"], debug, nil)
 	return J{"class": res.Class, "out": res.Out, "msg": res.Msg}
